@@ -672,7 +672,9 @@ async fn run_case(case: &Case) -> CaseOut {
             // the master clears the restart indication it has seen: acknowledged at once
             let writes: Vec<u8> = tx
                 .iter()
-                .filter(|(_, d, f)| *d == OUT_A && f.func == func::WRITE && f.objects.starts_with(&[80, 1]))
+                .filter(|(_, d, f)| {
+                    *d == OUT_A && f.func == func::WRITE && f.objects.starts_with(&[80, 1])
+                })
                 .map(|(_, _, f)| f.seq)
                 .collect();
             for seq in writes {
